@@ -414,7 +414,7 @@ fn main() {
     if let Some(mut rng) = ctx.random_case() {
         generator_suite(&mut ctx, &mut rng);
     }
-    let np = if san { ctx.budget(30, 120) } else { ctx.budget(3000, 60000) };
+    let np = if san { ctx.budget(30, 120) } else { ctx.budget(20000, 400000) };
     for _ in 0..np {
         if let Some(mut rng) = ctx.random_case() {
             let len = rng.range_usize(0, if san { 8 } else { 24 });
